@@ -4,14 +4,17 @@ EXTENDS Pop3Session, TLC
 Catalog == << [size |-> 37, hl |-> 3, bl |-> 2, tail |-> FALSE],
               [size |-> 28, hl |-> 2, bl |-> 1, tail |-> TRUE],
               [size |-> 13, hl |-> 2, bl |-> 0, tail |-> FALSE] >>
-CONSTANTS MaxN, MaxQ, MaxSess, MaxLater, Depth
+CONSTANTS MaxN, MaxQ, MaxSess, MaxLater, Depth, Full
 Idx == 0..(MaxN + 1)
-Cmds == {<<"USER", u, -1>> : u \in {1, 3}} \cup {<<"PASS", p, -1>> : p \in {0, 1}}
-        \cup {<<"APOP", 1, 1>>, <<"APOP", 3, 1>>, <<"APOP", 4, 1>>}
-        \cup {<<"STAT", -1, -1>>, <<"LIST", -1, -1>>, <<"UIDL", -1, -1>>, <<"RSET", -1, -1>>, <<"NOOP", -1, -1>>,
-              <<"LAST", -1, -1>>, <<"QUIT", -1, -1>>, <<"XYZZY", -1, -1>>, <<"DELE", -2, -1>>}
-        \cup {<<nm, i, -1>> : nm \in {"LIST", "UIDL", "RETR", "DELE"}, i \in Idx}
+\* quick alphabet: one representative per behaviour class; Full adds the remaining users / indexes / line counts
+Core == {<<"USER", 1, -1>>, <<"PASS", 0, -1>>, <<"PASS", 1, -1>>, <<"APOP", 1, 1>>, <<"APOP", 3, 1>>, <<"APOP", 4, 1>>,
+         <<"STAT", -1, -1>>, <<"LIST", -1, -1>>, <<"UIDL", -1, -1>>, <<"RSET", -1, -1>>, <<"LAST", -1, -1>>,
+         <<"QUIT", -1, -1>>, <<"XYZZY", -1, -1>>, <<"DELE", -2, -1>>, <<"LIST", 1, -1>>, <<"UIDL", 1, -1>>, <<"TOP", 1, 1>>}
+        \cup {<<nm, i, -1>> : nm \in {"RETR", "DELE"}, i \in Idx}
+More == {<<"USER", 3, -1>>, <<"USER", 4, -1>>, <<"APOP", 2, 1>>, <<"NOOP", -1, -1>>}
+        \cup {<<nm, i, -1>> : nm \in {"LIST", "UIDL"}, i \in Idx}
         \cup {<<"TOP", i, n>> : i \in 1..MaxN, n \in {0, 1}}
+Cmds == IF Full THEN Core \cup More ELSE Core
 \* Two starting points: a fresh protocol, and the state reached by  connect; USER good; PASS <right password>
 \* (TLC reaches the very same state at level 4 from the fresh start; starting there as well buys three more levels
 \* of TRANSACTION-state exploration for the same Depth).
